@@ -256,12 +256,8 @@ func (s *Storage) commit(context interpreter.ValueTransferContext, commitContrac
 		s.commitContractUpdates(context)
 	}
 
-	err := s.AccountStorage.commit()
-	if err != nil {
-		return err
-	}
-
-	// Commit the underlying slab storage's writes
+	// Meter the commit of the underlying slab storage's writes first:
+	// if a limit is exceeded, no register must have been written yet
 
 	slabStorage := s.PersistentSlabStorage
 
@@ -283,6 +279,15 @@ func (s *Storage) commit(context interpreter.ValueTransferContext, commitContrac
 
 	deltas := slabStorage.DeltasWithoutTempAddresses()
 	common.UseMemory(context, common.NewAtreeEncodedSlabMemoryUsage(deltas))
+
+	// Write the account storage map slab indices of new accounts
+
+	err := s.AccountStorage.commit()
+	if err != nil {
+		return err
+	}
+
+	// Commit the underlying slab storage's writes
 
 	// TODO: report encoding metric for all encoded slabs
 	workerCount := goRuntime.NumCPU()
